@@ -278,7 +278,12 @@ MC = {
     "C06": [("tags3", {"TagNames": '{"tag/a", "tag/b"}', "ConvNames": "{}", "MaxCalls": 3, "MaxViews": 0, "Menu": '"tags"', "Invalid": "FALSE"},
              ["NeverStale", "GraphWellFormed"]),
             ("marks", {"TagNames": '{"tag/a", "mark/m"}', "ConvNames": "{}", "MaxCalls": 3, "MaxViews": 0, "Menu": '"tags"', "Invalid": "FALSE"},
-             ["NeverStale", "GraphWellFormed"])],
+             ["NeverStale", "GraphWellFormed"]),
+            # payload filters also search the cached converter output: tags that matched output which is dropped later (detach,
+            # reset, executable removed) must be evaluated again
+            ("conv-payload", {"TagNames": '{"tag/a", "tag/b"}', "ConvNames": '{"cv"}', "MaxCalls": 3, "MaxViews": 0, "Menu": '"conv"', "Invalid": "FALSE",
+                              "Extra": '{"convdir"}'},
+             ["NeverStaleAtRest", "NeverStuck", "FlagsMatchJobs"])],
     "C09": [("tags3", {"TagNames": '{"tag/a", "tag/b"}', "ConvNames": "{}", "MaxCalls": 3, "MaxViews": 0, "Menu": '"tags"', "Invalid": "FALSE"},
              ["NeverStuck", "FlagsMatchJobs"]),
             ("liveness", {"TagNames": '{"tag/a"}', "ConvNames": "{}", "MaxCalls": 2, "MaxViews": 0, "Menu": '"files"', "Invalid": "FALSE"}, []),
@@ -308,12 +313,14 @@ MC = {
             # the converter directory changes while jobs run: executable removed (detached everywhere, cache dropped) and added again
             ("convdir", {"TagNames": '{"tag/a"}', "ConvNames": '{"cv"}', "MaxCalls": 4, "MaxViews": 0, "Menu": '"conv"', "Invalid": "FALSE",
                          "Extra": '{"convdir"}'},
-             ["ConvFreshAtRest", "ConvEventually", "NeverStuck", "FlagsMatchJobs", "Balanced", "NoUseAfterFree", "NeverStale"])],
+             ["ConvFreshAtRest", "ConvEventually", "NeverStuck", "FlagsMatchJobs", "Balanced", "NoUseAfterFree", "NeverStaleAtRest"])],
 }
 
 # Invariants the faithful model is known to violate: each is a recorded known finding (KNOWN_FINDINGS.txt) that exists at design
 # level.  TLC must FIND the counterexample (otherwise the model no longer describes the code as found: machinery error).
 MC_EXPECTED = {
+    "C06": [("conv-payload", {"TagNames": '{"tag/a", "tag/b"}', "ConvNames": '{"cv"}', "MaxCalls": 3, "MaxViews": 0, "Menu": '"conv"', "Invalid": "FALSE"},
+             {"NeverStale": "C06.NeverStale:convjob"})],
     "C16": [("conv", {"TagNames": '{"tag/a"}', "ConvNames": '{"cv"}', "MaxCalls": 3, "MaxViews": 0, "Menu": '"conv"', "Invalid": "FALSE"},
              {"ConvFresh": "C16.ConvFresh@ConvCompute", "DetachStops": "C16.DetachStops@ImportDone"}),
             ("restart", {"TagNames": '{"tag/a"}', "ConvNames": '{"cv"}', "MaxCalls": 3, "MaxViews": 0, "Menu": '"conv"', "Invalid": "FALSE", "Restarts": "TRUE"},
@@ -329,9 +336,12 @@ MC_THOROUGH = {
              ["MCViewComplete", "NameOrderIsServeOrder", "NeverStale", "Balanced", "NoUseAfterFree", "NeverStuck", "FlagsMatchJobs",
               "OneIdPerConn", "DirExactWhenQuiet", "PROPERTY:StreamsKeptProp"])],
     "C06": [("subs", {"TagNames": '{"tag/a", "tag/b"}', "ConvNames": "{}", "MaxCalls": 3, "MaxViews": 0, "Menu": '"subs"', "Invalid": "FALSE"},
-             ["NeverStale", "GraphWellFormed", "NeverStuck", "FlagsMatchJobs"])],
+             ["NeverStale", "GraphWellFormed", "NeverStuck", "FlagsMatchJobs"]),
+            ("conv-payload4", {"TagNames": '{"tag/a", "tag/b"}', "ConvNames": '{"cv"}', "MaxCalls": 4, "MaxViews": 0, "Menu": '"conv"', "Invalid": "FALSE",
+                               "Extra": '{"convdir"}'},
+             ["NeverStaleAtRest", "NeverStuck", "FlagsMatchJobs"])],
     "C16": [("conv-marks-views", {"TagNames": '{"tag/a", "mark/m"}', "ConvNames": '{"cv"}', "MaxCalls": 3, "MaxViews": 1, "Menu": '"conv"', "Invalid": "FALSE"},
-             ["ConvEventually", "NeverStuck", "FlagsMatchJobs", "NoUseAfterFree", "Balanced", "GraphWellFormed", "NeverStale"])],
+             ["ConvEventually", "NeverStuck", "FlagsMatchJobs", "NoUseAfterFree", "Balanced", "GraphWellFormed", "NeverStaleAtRest"])],
     "C09": [("liveness-conv", {"TagNames": '{"tag/a"}', "ConvNames": '{"cv"}', "MaxCalls": 2, "MaxViews": 0, "Menu": '"conv"', "Invalid": "FALSE"}, [])],
 }
 
@@ -382,7 +392,8 @@ def model_check(ctx, pid):
 GEN2 = {   # additional generator configurations (same MaxLen)
     "C10": [{"TagNames": '{"tag/a", "tag/b"}', "ConvNames": "{}", "MaxCalls": 8, "MaxViews": 2, "Menu": '"conv"', "Invalid": "FALSE"}],
     "C11": [{"TagNames": '{"tag/a", "tag/b", "service/c"}', "ConvNames": "{}", "MaxCalls": 12, "MaxViews": 0, "Menu": '"subs"', "Invalid": "TRUE"}],
-    "C06": [{"TagNames": '{"tag/a", "tag/b", "mark/m"}', "ConvNames": "{}", "MaxCalls": 7, "MaxViews": 1, "Menu": '"subs"', "Invalid": "FALSE"}],
+    "C06": [{"TagNames": '{"tag/a", "tag/b", "mark/m"}', "ConvNames": "{}", "MaxCalls": 7, "MaxViews": 1, "Menu": '"subs"', "Invalid": "FALSE"},
+            {"TagNames": '{"tag/a", "tag/b", "mark/m"}', "ConvNames": '{"cv"}', "MaxCalls": 9, "MaxViews": 1, "Menu": '"conv"', "Invalid": "FALSE", "Extra": '{"convdir"}'}],
     "C09": [{"TagNames": '{"tag/a", "mark/m"}', "ConvNames": '{"cv"}', "MaxCalls": 8, "MaxViews": 1, "Menu": '"conv"', "Invalid": "FALSE"},
             {"TagNames": '{"tag/a", "tag/b", "mark/m"}', "ConvNames": "{}", "MaxCalls": 7, "MaxViews": 1, "Menu": '"subs"', "Invalid": "FALSE"}],
     "C13": [{"TagNames": '{"tag/a", "mark/m"}', "ConvNames": '{"cv"}', "MaxCalls": 8, "MaxViews": 2, "Menu": '"conv"', "Invalid": "FALSE"}],
